@@ -6,6 +6,7 @@ from pyvc.book import Contract, Loop
 from pyvc.engine import Cl
 from pyvc.values import Seq, Obj
 from pyvc import lemmas as L
+from pyvc import prelude as P
 
 I, R = z3.IntSort(), z3.RealSort()
 M0 = z3.Function("M0", R, R, R)     # zeroth moment (probability) of [x1,x2]
@@ -67,6 +68,48 @@ def weight_spec(x, n, j, k):
     return z3.If(z3.And(j >= 1, j <= k), W2F(x, j - 1), z3.RealVal(0)) + z3.If(j < k, W1F(x, j), z3.RealVal(0))
 
 
+TOTM = z3.Function("TotalMass", z3.ArraySort(I, R), I, R)     # ghost: sum of the interval probabilities M0(x_i, x_{i+1}) of the first k intervals
+
+
+def totm_defs(x):
+    k = z3.Int("tk")
+    return [TOTM(x, 0) == 0,
+            z3.ForAll([k], z3.Implies(k >= 0, TOTM(x, k + 1) == TOTM(x, k) + M0(z3.Select(x, k), z3.Select(x, k + 1))), patterns=[TOTM(x, k + 1)])]
+
+
+def total_mass_stmt(x, n):
+    """A-DIST-ADD (interval probabilities are additive) ==> the interval probabilities of a sorted grid add up to the probability of [x_0, x_{n-1}]"""
+    i = z3.Int("tmi")
+    srt = z3.ForAll([i], z3.Implies(z3.And(i >= 0, i < n - 1), z3.Select(x, i) <= z3.Select(x, i + 1)))
+    return z3.Implies(z3.And(n >= 1, srt), TOTM(x, n - 1) == M0(z3.Select(x, 0), z3.Select(x, n - 1)))
+
+
+def a_dist_add():
+    a, b, c = z3.Reals("ma mb mc")
+    return z3.ForAll([a, b, c], z3.Implies(z3.And(a <= b, b <= c), M0(a, b) + M0(b, c) == M0(a, c)), patterns=[z3.MultiPattern(M0(a, b), M0(b, c))])
+
+
+def _sum_zeros_lemma():
+    n = z3.Int("n")
+    zeros = z3.K(I, z3.RealVal(0))
+    ax = P.sum_axioms()
+    return [(ax, P.SUMR(zeros, 0, 0) == 0), (ax + [n >= 0, P.SUMR(zeros, 0, n) == 0], P.SUMR(zeros, 0, n + 1) == 0)]
+
+
+def _total_mass_lemma():
+    x = z3.Const("x", z3.ArraySort(I, R))
+    m, i = z3.Ints("m i")
+    a0 = z3.Real("a0")
+    base = totm_defs(x) + [a_dist_add(), M0(a0, a0) == 0]
+    srt = lambda hi: z3.ForAll([i], z3.Implies(z3.And(i >= 0, i < hi), z3.Select(x, i) <= z3.Select(x, i + 1)))  # noqa
+    claim = lambda k: TOTM(x, k) == M0(z3.Select(x, 0), z3.Select(x, k))  # noqa
+    # sortedness gives x_0 <= x_m by its own induction; it is stated as a hypothesis of the step (x_0 <= x_m) and proved as the third goal
+    le = lambda k: z3.Select(x, 0) <= z3.Select(x, k)  # noqa
+    return [(base + [z3.ForAll([a0], M0(a0, a0) == 0)], claim(z3.IntVal(0))),
+            (base + [m >= 0, srt(m + 1), le(m), claim(m)], claim(m + 1)),
+            ([m >= 0, srt(m + 1), le(m)], le(m + 1))]
+
+
 class WeightedComputeWeights(Contract):
     file, qualname = "sparseSpACE/Grid.py", "GlobalTrapezoidalGridWeighted.compute_weights"
     label = "GlobalTrapezoidalGridWeighted.compute_weights[boundary on, finite grid]"
@@ -75,7 +118,9 @@ class WeightedComputeWeights(Contract):
         n = S.int("n")
         x = S.seq("grid_1D", n, R, kind="array")
         for ax in weight_defs(x.arr):
-            S.assume(ax)
+            S.assume(ax, "def:W")
+        for ax in totm_defs(x.arr):
+            S.assume(ax, "def:TotalMass")
         return {"grid_1D": x, "a": S.real("a"), "b": S.real("b"), "distribution": Obj("UQDistribution", {}), "boundary": True, "modified_basis": False}
 
     def pre(self, S, env):
@@ -93,7 +138,12 @@ class WeightedComputeWeights(Contract):
         return [Cl("returns-array", True, prop=True),
                 Cl("one-weight-per-point", V(w.len()) == n, prop=True),
                 Cl("weights-nonnegative", z3.ForAll([j], z3.Implies(z3.And(j >= 0, j < n), z3.Select(w.arr, j) >= 0)), prop=True),
-                Cl("weights-match-the-interval-moments", z3.ForAll([j], z3.Implies(z3.And(j >= 0, j < n), z3.Select(w.arr, j) == weight_spec(x, n, j, n - 1))), prop=True)]
+                Cl("weights-match-the-interval-moments", z3.ForAll([j], z3.Implies(z3.And(j >= 0, j < n), z3.Select(w.arr, j) == weight_spec(x, n, j, n - 1))), prop=True),
+                Cl("weights-sum-to-the-probability-of-the-grid-intervals", P.SUMR(w.arr, 0, n) == TOTM(x, n - 1)),
+                # with additive interval probabilities (A-DIST-ADD, lemma total-mass) that is the probability of [x_0, x_{n-1}]: 1 when the grid spans the support
+                Cl("weights-sum-to-one-when-the-grid-spans-the-support",
+                   z3.Implies(M0(z3.Select(x, 0), z3.Select(x, n - 1)) == 1, P.SUMR(w.arr, 0, n) == 1), prop=True,
+                   by=[("total-mass", total_mass_stmt(x, n))])]
 
     @staticmethod
     def facts(x, n):
@@ -107,10 +157,24 @@ class WeightedComputeWeights(Contract):
         j = z3.Int("ij")
         k = g["k"]
         return [("partial-weights", z3.ForAll([j], z3.Implies(z3.And(j >= 0, j < n), z3.Select(w.arr, j) == weight_spec(x, n, j, k)), patterns=[z3.Select(w.arr, j)]),
-                 "nokeep", ["loop0/inv#partial-weights", "loop0/inv#length", "loop0/inv#grid-untouched"]),
+                 "nokeep"),
                 ("interval-weights-nonneg", z3.ForAll([j], z3.Implies(z3.And(j >= 0, j < k), z3.And(W1F(x, j) >= 0, W2F(x, j) >= 0)), patterns=[W1F(x, j), W2F(x, j)])),
                 ("length", z3.And(V(w.len()) == n, V(env["num_points"]) == n)),
-                ("grid-untouched", env["grid_1D"].arr == x)]
+                ("grid-untouched", env["grid_1D"].arr == x),
+                self.sum_so_far(w, x, n, k, g)]
+
+    def sum_so_far(self, w, x, n, k, g):
+        """ghost: the weights written so far add up to the probability of the processed intervals (each iteration adds w1 + w2 == M0 of its interval
+        at two positions: two instances of lemma sum-update over the array at the start of the iteration)"""
+        from contracts.C05 import sum_update_stmt
+        zeros = z3.K(I, z3.RealVal(0))
+        by = [("sum-zeros", z3.Implies(n >= 0, P.SUMR(zeros, 0, n) == 0))]      # loop entry: weights = np.zeros(n)
+        if "start" in g and "weights" in g["start"]:
+            w0 = g["start"]["weights"].to_symbolic().arr
+            i = k - 1
+            a1 = z3.Store(w0, i, z3.Select(w.arr, i))
+            by = [("sum-update", sum_update_stmt(w0, i, z3.Select(w.arr, i), n)), ("sum-update", sum_update_stmt(a1, i + 1, z3.Select(w.arr, i + 1), n))]
+        return Cl("sum-so-far", P.SUMR(w.arr, 0, n) == TOTM(x, k), keep=True, uses=["def:TotalMass", "loop0/inv#sum-so-far", "loop0/inv#length", "loop0/inv#grid-untouched"], by=by)
 
     def inv2(self, S, env, g):
         x, n = S.ex.old["grid_1D"].arr, S.ex.old["grid_1D"].len()
@@ -119,7 +183,8 @@ class WeightedComputeWeights(Contract):
         return [("final-weights", z3.ForAll([j], z3.Implies(z3.And(j >= 0, j < n), z3.Select(w.arr, j) == weight_spec(x, n, j, n - 1)), patterns=[z3.Select(w.arr, j)])),
                 ("interval-weights-nonneg", z3.ForAll([j], z3.Implies(z3.And(j >= 0, j < n - 1), z3.And(W1F(x, j) >= 0, W2F(x, j) >= 0)), patterns=[W1F(x, j), W2F(x, j)])),
                 ("length", z3.And(V(w.len()) == n, V(env["num_points"]) == n)),
-                ("grid-untouched", env["grid_1D"].arr == x)]
+                ("grid-untouched", env["grid_1D"].arr == x),
+                ("sum-is-the-total-mass", P.SUMR(w.arr, 0, n) == TOTM(x, n - 1))]
 
     @property
     def loops(self):
@@ -188,7 +253,9 @@ def _adist_lemma():
 
 
 CONTRACTS = [ZerothMoment(), FirstMoment(), WeightedComputeWeights(), MomentsToExpVar(1), MomentsToExpVar(2), MomentsToExpVar(3)]
-LEMMAS = [L.SmtLemma("affine-transformation-of-moments", _affine_lemma), L.SmtLemma("uniform-weights-are-trapezoidal-over-length", _uniform_lemma),
+LEMMAS = [L.SmtLemma("sum-zeros", _sum_zeros_lemma, note="ghost Sum of the zero array"), L.SmtLemma("total-mass", _total_mass_lemma, note="A-DIST-ADD: interval probabilities are additive; induction over the sorted grid"),
+          L.SmtLemma("sum-update", __import__("contracts.C05", fromlist=["x"])._sum_update_lemma, note="ghost Sum after one array store (induction), shared with C05"),
+          L.SmtLemma("affine-transformation-of-moments", _affine_lemma), L.SmtLemma("uniform-weights-are-trapezoidal-over-length", _uniform_lemma),
           L.SmtLemma("A-DIST-gives-nonnegative-interval-weights", _adist_lemma)]
 ASSUMPTIONS = ["A-DIST: the distribution's interval moments satisfy M0>=0, x1*M0<=M1<=x2*M0 (true of every probability density; scipy/chaospy + quad accuracy not verified)",
                "weighted weights proved for boundary points on and finite grid points; infinite ends, boundary-off renormalisation, the weighted midpoint for real (inexact) cdf/ppf pairs, Sum of weights == 1: layer B",
@@ -226,4 +293,5 @@ class MiddleWeighted(Contract):
 
 
 CONTRACTS += [MiddleWeighted()]
-ASSUMPTIONS += ["A-DIST-CDF (get_middle_weighted): cdf strictly increasing on the interval, ppf its exact inverse on [cdf(a), cdf(b)]; finite interval ends"]
+ASSUMPTIONS += ["A-DIST-ADD (sum of the weights): interval probabilities are additive, M0(a,b)+M0(b,c) == M0(a,c) for a<=b<=c, and M0(a,a) == 0 (axioms of the uninterpreted M0 in lemma total-mass)",
+                "A-DIST-CDF (get_middle_weighted): cdf strictly increasing on the interval, ppf its exact inverse on [cdf(a), cdf(b)]; finite interval ends"]
